@@ -216,6 +216,12 @@ def judge_sig(rep, dh, wd, all_h):
     rep.cov["signatures_verified_against_model_root"] = nsig
     if badsig:
         hi, i, j = badsig[0]
+        if all_h[hi].get("concurrent"):
+            import conc as _c
+            rep.violation("bad-signature-concurrent", "with many signing requests in flight, a signature does not verify under the addressed key over the model's signing root for ITS request (%d of %d signatures)" % (len(badsig), nsig),
+                          {"config": all_h[hi]["cfg"], "scenario": _c.scenario_lines([], "yield", [(0, o) for o in all_h[hi]["ops"]], 64),
+                           "gomaxprocs": all_h[hi].get("gomaxprocs"), "request": all_h[hi]["ops"][i][:300], "position": j})
+            return True
         rep.violation("bad-signature", "signature does not verify under the addressed key over the model's signing root",
                       {"config": all_h[hi]["cfg"], "ops": all_h[hi]["ops"][:i + 1], "position": j,
                        "gomaxprocs": all_h[hi].get("gomaxprocs")})
@@ -1031,6 +1037,34 @@ def c08(rep, tier, seed, wd, replay):
         if crashed:
             rep.broken.append(("implementation-crash:ssz", err, False))
         all_h.append(h)
+    # many signing requests in flight at once (more goroutines than processors): whatever is shared between concurrent
+    # signing operations must not leak from one request into another's signature.  Generic signing is stateless, so the
+    # model's answer does not depend on the order.
+    import conc as conc_
+    from common import run_impl as _ri, run_model as _rm
+    for p in ([2, 4] if not big else [1, 2, 4, 16]):
+        r_ = rng.fork()
+        cops = []
+        for q in range(160 if not big else 900):
+            ents = []
+            for a in r_.shuffle(accts)[:1 + r_.below(8)]:
+                ents.append("%s,%s,%s" % (adr(a), hist.dom32(DOM_RANDAO, r_).hex(), bytes(r_.below(256) for _ in range(32)).hex()))
+            if len(ents) == 1 and r_.chance(0.5):
+                cops.append((0, "sign %s - %s %s -" % (hx("c"), ents[0].split(",", 1)[0], ents[0].split(",", 1)[1])))
+            else:
+                cops.append((0, "msign %s - - %s" % (hx("c"), ";".join(ents))))
+        lines_ = ["reset"] + cfg + conc_.scenario_lines([], "yield", cops, 64)
+        io_, crashed_, err_ = _ri(dh, wd, lines_, env={"GOMAXPROCS": str(p)}, timeout=1200)
+        if crashed_ or len(io_) < len(cops) + 4 or any(o.startswith("TIMEOUT") for o in io_):
+            rep.broken.append(("implementation-crash:ssz-concurrent", err_[-1500:], False))
+            continue
+        res_ = conc_.parse_go(io_[1 + 1 + len(cops)])
+        ops_ = [op for _, op in cops]
+        mo_ = _rm(["reset"] + cfg + ops_)
+        h = {"cfg": cfg, "ops": ops_, "accts": accts, "opts": {}, "gomaxprocs": p, "impl": [x[2] for x in res_], "model": mo_[1:], "bad": [],
+             "concurrent": True}
+        all_h.append(h)
+        rep.dist("concurrent_signing_requests", "GOMAXPROCS=%d" % p, len(cops))
     found = False
     first_bad = None
     nsig = 0
@@ -1239,6 +1273,8 @@ def c11(rep, tier, seed, wd, replay):
     opts = {"clean": True, "huge": False}
 
     def exp_lines(h):
+        if h.get("imports"):
+            return          # after an import the export states imported values too: compared with the model only
         for i, op in enumerate(h["ops"]):
             f = op.split()
             if i >= len(h["impl"]):
@@ -1261,6 +1297,33 @@ def c11(rep, tier, seed, wd, replay):
                     v = ex.get(k, ("-1", "-1", "-1"))
                     yield ("jexport %s %s %s %s" % (k, v[0], v[1], v[2]), (i, 0, k[:16]))
 
+    def judge_after_import(rep, dh, wd, all_h):
+        """an instance that imported (slot, source, target) for a key must refuse what the exporting instance — which had
+        signed up to those values — refuses: a proposal at or below the slot, an attestation at or below the target or
+        with a lower source"""
+        for h in all_h:
+            if not h.get("imports"):
+                continue
+            imp_ = {}
+            for i, op in enumerate(h["ops"]):
+                f = op.split()
+                if f[0] == "importsvc" and i < len(h["impl"]) and h["impl"][i].strip() == "ok":
+                    imp_[bytes.fromhex(f[1])] = (int(f[2]), int(f[3]), int(f[4]))
+            rel = hist.released(h["ops"], h["impl"], h["accts"])
+            first_imp = min([i for i, op in enumerate(h["ops"]) if op.startswith("importsvc")] or [10 ** 9])
+            for (k, key, data, sig, i, j, st) in rel:
+                if i < first_imp or key not in imp_:
+                    continue
+                slot, src, tgt = imp_[key]
+                d = data.split(",")
+                bad_ = (k == "prop" and slot >= 0 and int(d[1]) <= slot) or \
+                       (k == "att" and tgt >= 0 and (int(d[6]) <= tgt or int(d[4]) < src))
+                if bad_:
+                    rep.violation("decision-differs-after-import", "after importing protection data the instance signed a request the exporting instance refuses",
+                                  {"config": h["cfg"], "ops": h["ops"][:i + 1], "imported": {"slot": slot, "source": src, "target": tgt}})
+                    return True
+        return False
+
     def judge(rep, dh, wd, all_h):
         bad = judge_lines(rep, all_h, exp_lines, "export_entries_judged")
         bad = [b for b in bad if b[-1] in ("EXPORT-NOT-EXACT",) or b[3] == "export-failed"]
@@ -1271,8 +1334,32 @@ def c11(rep, tier, seed, wd, replay):
             return True
         return False
     o2 = dict(opts)
-    run_hist_property(rep, tier, seed, wd, "C11", SIGN_KINDS + ("export", "restart"), o2, sizes, judges=[judge], corpus=False,
-                      nontrivial=lambda h: sum(1 for o in h["ops"] if o == "export") >= 2)
+
+    def live_imports(keys_, rng_):
+        """an export imported through rules.Service.ImportSlashingProtection into an instance that is RUNNING and has
+        already been asked about the key (a refused request leaves its store empty): afterwards it must decide like
+        the exporting instance"""
+        accts_, perms_, admins_ = hist.std_config(keys_, nacct=5)
+        cfg_ = hist.config_lines(accts_, perms_, admins_)
+        H = []
+        for q in range(4 if tier != "thorough" else 40):
+            r2 = rng_.fork()
+            a = r2.choice([x for x in accts_ if x.unlockable and x.wallet == "Wallet 1"])
+            n0 = "n:" + hx(a.path)
+            slot, src, tgt = 50 + r2.below(50), 10 + r2.below(10), 30 + r2.below(10)
+            ops_ = []
+            if r2.chance(0.5):
+                ops_.append(att_line("client1", n0, 7, 7, 0))                      # refused (target <= source): store stays empty
+            else:
+                ops_ += [prop_line("client1", n0, 3, 0), att_line("client1", n0, 1, 2, 0)]   # low values signed before
+            ops_ += ["export", "importsvc %s %d %d %d" % (a.pk.hex(), slot, src, tgt), "export",
+                     prop_line("client1", n0, slot - 1 - r2.below(3), 1), prop_line("client1", n0, slot, 1), att_line("client1", n0, src - 1, tgt + 1, 1),
+                     att_line("client1", n0, src, tgt, 1), att_line("client1", n0, src, tgt - 1, 1), "export",
+                     prop_line("client1", n0, slot + 1, 2), att_line("client1", n0, src, tgt + 1, 2), "export", "restart", "export"]
+            H.append({"cfg": cfg_, "ops": ops_, "accts": accts_, "opts": {}, "imports": True})
+        return H
+    run_hist_property(rep, tier, seed, wd, "C11", SIGN_KINDS + ("export", "restart", "importsvc"), o2, sizes, judges=[judge, judge_after_import], corpus=False,
+                      nontrivial=lambda h: sum(1 for o in h["ops"] if o == "export") >= 2, extra_hist=live_imports)
     # (b) legacy gob records
     vals = [-1, 0, 1, 5, 1000, 1 << 31, (1 << 63) - 1, (1 << 62)]
     accts, perms, admins = hist.std_config(keys, nacct=5)
@@ -1547,6 +1634,32 @@ def c15(rep, tier, seed, wd, replay):
     ns, nsoak, ssize = tier_sizes(tier, (40, 3, 200), (600, 12, 600))
     found = run_conc(rep, dh, wd, keys, rng, ns, nsoak, ssize, [2, None] if tier != "thorough" else [2, 16, 128], want_lin=False, want_slash=False,
                      n_deadline=3 if tier != "thorough" else 30)
+    # wide batches: several hundred distinct keys in one request (whatever maps keys to locks must keep distinct keys
+    # apart — with n keys, n(n-1)/2 pairs are exercised at once), overlapping with other wide batches and singles
+    import conc as conc_
+    from common import run_impl as _ri
+    nk = 200 if tier != "thorough" else 1000
+    wkeys = hist.interop_keys(dh, nk + 2)
+    waccts = [hist.Acct("Wallet 1", "Account %d" % i_, wkeys[i_]) for i_ in range(nk)]
+    wcfg = hist.config_lines(waccts, [("client1", "Wallet 1", ["All"])], [])
+    for wi in range(1 if tier != "thorough" else 4):
+        r_ = rng.fork()
+        cops = []
+        for b_ in range(4):
+            sub = r_.shuffle(waccts)[:nk - r_.below(nk // 3)]
+            cops.append((b_ * 3, conc_.atts_op([conc_.att_item(conc_.name(a_), 1, 5 + b_, b_) for a_ in sub])))
+        for a_ in r_.shuffle(waccts)[:20]:
+            cops.append((r_.below(10), conc_.att_op(conc_.name(a_), 1, 20, 3)))
+        sl = conc_.scenario_lines([], "-", cops, 0)
+        io_, crashed_, err_ = _ri(dh, wd, ["reset"] + wcfg + sl, timeout=600)
+        rep.dist("scenario", "wide-batch")
+        rep.count("wide|%d|%d" % (wi, nk), True)
+        if any(o.startswith("TIMEOUT") for o in io_):
+            rep.violation("deadlock", "concurrent requests did not all complete within the watchdog (batches of several hundred distinct keys): " + [o for o in io_ if o.startswith("TIMEOUT")][0],
+                          {"config": wcfg, "scenario": sl, "gomaxprocs": None})
+            found = True
+        elif crashed_:
+            rep.broken.append(("implementation-crash:conc-wide", err_[-1500:], False))
     if first_bad is not None:
         h, (i, op, il, ml) = first_bad
         rep.broken.append(("correspondence:lock-trace(model lock protocol vs ruler+locker calls)",
@@ -1708,7 +1821,7 @@ def c03(rep, tier, seed, wd, replay):
                            json.dumps({"config": h["cfg"], "ops": h["ops"][:i + 1], "impl": il[:300], "model": ml_[:300]}), found))
 
 
-DKG_DIFF_OPS = ("cluster", "gen", "holds", "cprepare", "hprepare", "hexecute", "hcontribute", "hcommit", "habort", "sleep")
+DKG_DIFF_OPS = ("cluster", "gen", "gens", "holds", "cprepare", "hprepare", "hprepares", "hexecute", "hcontribute", "hcommit", "habort", "sleep")
 
 
 def c18(rep, tier, seed, wd, replay):
@@ -2194,15 +2307,15 @@ def c12(rep, tier, seed, wd, replay):
                     rep.violation("inconsistent-key", "after a successful generation the participants do not hold one consistent threshold key: " + o[:120],
                                   {"scenario": r_["tag"], "lines": r_["lines"][:i + 1], "impl": r_["impl"][:i + 1]})
                     found = True
-            if f[0] == "recover" and not o.startswith("ok"):
+            if f[0] == "recover" and f[1] in pubs and not o.startswith("ok"):
                 rep.violation("threshold-recovery", "threshold signatures do not behave as t-of-n: " + o[:120],
                               {"scenario": r_["tag"], "lines": r_["lines"][:i + 1], "impl": r_["impl"][:i + 1]})
                 found = True
-            if f[0] == "use" and o != "ok":
+            if f[0] == "use" and f[1] in pubs and o != "ok":
                 rep.violation("not-usable", "a freshly generated account is not immediately usable for signing/listing: " + o[:120],
                               {"scenario": r_["tag"], "lines": r_["lines"][:i + 1], "impl": r_["impl"][:i + 1]})
                 found = True
-            if f[0] == "shares" and ":" in o:
+            if f[0] == "shares" and f[1] in pubs and ":" in o:
                 pts = o.split()
                 t = None
                 for j in range(i, -1, -1):
@@ -2258,6 +2371,14 @@ def c13(rep, tier, seed, wd, replay):
         if r_["bad"] and first_bad is None:
             first_bad = r_
         if fault == "dup":
+            continue
+        if fault == "overlap":
+            gens_o, holds_o = r_["impl"][1], r_["impl"][2]
+            rep.dist("overlap", gens_o)
+            if "ok" not in gens_o.split() and "true" in holds_o:
+                rep.violation("account-after-overlap", "both overlapping generations for one name ended with an error, yet instances hold an account under that name",
+                              {"scenario": r_["tag"], "lines": r_["lines"][:3], "impl": r_["impl"][:3]})
+                found = True
             continue
         gen_o, holds_o = r_["impl"][1], r_["impl"][2]
         if gen_o.startswith("ok") or "true" in holds_o:
@@ -2548,6 +2669,13 @@ def generic_replay(rep, pid, tier, seed, wd):
                 impl_seq += [x[2] for x in res]
             h = {"cfg": r["config"], "ops": ops_seq, "impl": impl_seq, "accts": accts}
             bad, _ = engines.judge_slashing([h], orderfree=True)
+            if all(o.split()[0] in ("sign", "msign") for o in ops_seq):
+                # stateless requests: the model's answer does not depend on the order, so every signature can be verified
+                h["model"] = run_model(["reset"] + r["config"] + ops_seq)[1:]
+                badsig, nsig = engines.sigcheck(dh, [h])
+                if badsig:
+                    rep.violation("replay-bad-signature", "%d of %d signatures of the replayed concurrent scenario do not verify for their own request" % (len(badsig), nsig), dict(r))
+                    return
             if bad:
                 rep.violation("replay-slashable", "the replayed concurrent scenario released a slashable pair (%s)" % bad[0][-1], dict(r, observed=impl_seq))
             else:
